@@ -20,7 +20,77 @@ import (
 	"github.com/gethiox/HIDI/verifsim/simrt"
 )
 
-func init() { register("W3", runW3) }
+func init() {
+	register("W3", runW3)
+	shrinkers["W3"] = shrinkW3
+}
+
+func shrinkW3(raw json.RawMessage) []json.RawMessage {
+	var o w3Ops
+	if json.Unmarshal(raw, &o) != nil {
+		return nil
+	}
+	var out []json.RawMessage
+	clone := func() w3Ops {
+		c := o
+		c.Devs = nil
+		for _, d := range o.Devs {
+			d.Script = append([]model.Event(nil), d.Script...)
+			c.Devs = append(c.Devs, d)
+		}
+		return c
+	}
+	// the configurations are derived from the seed per device index: only trailing devices can be dropped
+	if len(o.Devs) > 1 {
+		c := clone()
+		c.Devs = c.Devs[:len(c.Devs)-1]
+		out = append(out, mustJSON(c))
+	}
+	for di := range o.Devs {
+		n := len(o.Devs[di].Script)
+		for _, chunk := range []int{n / 2, n / 4, 1} {
+			if chunk < 1 || chunk >= n+1 {
+				continue
+			}
+			for at := 0; at+chunk <= n; at += chunk {
+				c := clone()
+				sc := c.Devs[di].Script
+				c.Devs[di].Script = normaliseScript(append(append([]model.Event(nil), sc[:at]...), sc[at+chunk:]...))
+				if len(c.Devs[di].Script) < n {
+					out = append(out, mustJSON(c))
+				}
+				if len(out) > 60 {
+					break
+				}
+			}
+		}
+	}
+	zero := orgbFaults{}
+	if o.Faults != zero {
+		for _, f := range []func(*orgbFaults){
+			func(f *orgbFaults) { f.RefuseDials = 0 }, func(f *orgbFaults) { f.DialDelayMs = 0 }, func(f *orgbFaults) { f.ReplyDelayUs = 0 },
+			func(f *orgbFaults) { f.FrameDelayUs = 0 }, func(f *orgbFaults) { f.DropAfter = 0 },
+		} {
+			c := clone()
+			before := c.Faults
+			f(&c.Faults)
+			if c.Faults != before {
+				out = append(out, mustJSON(c))
+			}
+		}
+	}
+	if o.Decoys > 0 {
+		c := clone()
+		c.Decoys = 0
+		out = append(out, mustJSON(c))
+	}
+	if o.SlowOut > 0 {
+		c := clone()
+		c.SlowOut = 0
+		out = append(out, mustJSON(c))
+	}
+	return out
+}
 
 // W3: 1-3 real devices, each with MIDI-in traffic, the LED loop talking to a fake OpenRGB server over
 // net.Pipe, a sysfs stub, a shared output channel; unplug at PRNG-chosen moments.
